@@ -1103,6 +1103,9 @@ func (p *Prog) ownedByAny(fn *ssa.Function, allowed []string) bool {
 
 func (p *Prog) ownedByAnyDepth(fn *ssa.Function, allowed []string, depth int) bool {
 	nm := shortName(fn)
+	if o := fn.Origin(); o != nil {
+		nm = shortName(o) // an instantiation of a generic function is that function
+	}
 	for _, a := range allowed {
 		if a == nm {
 			return true
